@@ -32,6 +32,7 @@ import (
 	"bytes"
 	"crypto/md5"
 	"fmt"
+	"math"
 	"math/big"
 	"sort"
 	"strconv"
@@ -63,6 +64,11 @@ func (p murmur3Partitioner) Name() string {
 
 func (p murmur3Partitioner) Hash(partitionKey []byte) token {
 	h1 := murmur.Murmur3H1(partitionKey)
+	// like Cassandra's Murmur3Partitioner.normalize: Long.MIN_VALUE is not a
+	// valid token, it is mapped to Long.MAX_VALUE
+	if h1 == math.MinInt64 {
+		h1 = math.MaxInt64
+	}
 	return murmur3Token(h1)
 }
 
